@@ -225,6 +225,33 @@ struct Can
         return (crcSupport ? 0x80000000u : 0) | (sbcSupport ? 0x40000000u : 0) | (sbcParity ? 0x01000000u : 0) |
                (static_cast<uint32_t>(sbc & 7) << 21) | (crc & 0x1FFFFFu);
     }
+    // header fields from raw bytes (n >= 16); data = everything after the header
+    static Can parse(const uint8_t* p, size_t n, bool fd)
+    {
+        Can c;
+        c.flags = get16(p);
+        c.reserved = get16(p + 2);
+        uint32_t idw = get32(p + 4), crcw = get32(p + 8);
+        c.id = idw & 0x1FFFFFFFu;
+        c.ide = (idw & 0x80000000u) != 0;
+        c.rtr = (idw & 0x40000000u) != 0;
+        c.rsvd = (idw & 0x20000000u) != 0;
+        c.crcSupport = (crcw & 0x80000000u) != 0;
+        if (fd)
+        {
+            c.crc = crcw & 0x1FFFFFu;
+            c.sbc = static_cast<uint8_t>((crcw >> 21) & 7);
+            c.sbcParity = (crcw & 0x01000000u) != 0;
+            c.sbcSupport = (crcw & 0x40000000u) != 0;
+        }
+        else
+            c.crc = crcw & 0x7FFFu;
+        c.errorPosition = get16(p + 12);
+        c.dlc = p[14];
+        c.dataLength = p[15];
+        c.data.assign(p + 16, p + n);
+        return c;
+    }
     Bytes serialize(bool fd) const
     {
         Bytes b;
@@ -268,6 +295,18 @@ struct Lin
     uint8_t checksum = 0;
     uint8_t dataLength = 0;
     Bytes data;
+    static Lin parse(const uint8_t* p, size_t n)
+    {
+        Lin l;
+        l.flags = get16(p);
+        l.reserved1 = get16(p + 2);
+        l.pid = p[4];
+        l.reserved2 = p[5];
+        l.checksum = p[6];
+        l.dataLength = p[7];
+        l.data.assign(p + 8, p + n);
+        return l;
+    }
     Bytes serialize() const
     {
         Bytes b;
